@@ -20,7 +20,7 @@ import (
 	"github.com/holiman/uint256"
 )
 
-var c16Names = []string{"v0", "v1", "v2", "v3", "shared", "made", "m", "str"}
+var c16Names = []string{"v0", "v1", "v2", "v3", "shared", "made", "m", "str", "lstr"}
 
 func canonCall(sb *strings.Builder, ct *avm.CallTree) {
 	for i := uint64(0); ; i++ {
